@@ -292,7 +292,7 @@ Proof.
   eapply Forall_impl; [|exact Hfl]. intros ev Hin. unfold ev_lt. cbn [snd fst]. exact (Hlow _ Hin).
 Qed.
 
-Lemma received_ok_app_r' pre : forall lo b a l, above lo (pre ++ b :: a :: l) -> fst b < fst a.
+Lemma above_adjacent pre : forall lo b a l, above lo (pre ++ b :: a :: l) -> fst b < fst a.
 Proof.
   induction pre as [|c pre IH]; intros lo b a l H.
   - cbn [app above] in H. exact (proj1 (proj2 H)).
@@ -435,7 +435,7 @@ Proof.
     rewrite contiguous_snoc in Hst. apply Z.eqb_neq in Hst.
     pose proof (received_ok_above _ _ Hrec) as Hab. rewrite E in Hab.
     assert (Hlt : fst b < fst a).
-    { rewrite <- app_assoc in Hab. apply (received_ok_app_r' pre) in Hab. exact Hab. }
+    { rewrite <- app_assoc in Hab. apply (above_adjacent pre) in Hab. exact Hab. }
     apply above_app_l in Hab. apply above_last_max in Hab.
     eapply Forall_impl; [|exact Hab]. cbn. intros; lia.
 Qed.
